@@ -103,19 +103,30 @@ def litUuidP : P Str := fun cs => do
   let (e, r) ← hexN 12 r
   pure (a ++ ['-'] ++ b ++ ['-'] ++ c ++ ['-'] ++ d ++ ['-'] ++ e, r)
 
+/-- One `lit_string_char` (`"\\\\" | "\\\"" | (!("\"" | newline) ~ ANY)`) at the head of the input: how many characters it
+takes (0 = none matches). -/
+def strCharLen : Str → Nat
+  | '\\' :: '\\' :: _ => 2
+  | '\\' :: '"' :: _ => 2
+  | '"' :: _ => 0
+  | '\n' :: _ => 0
+  | '\r' :: '\n' :: _ => 0
+  | _ :: _ => 1
+  | [] => 0
+
 /-- `lit_string_char* ~ "\""` after the opening quote. -/
-def litStringTail : Str → Option (Str × Str)
-  | '\\' :: '\\' :: r => (litStringTail r).map (fun (a, b) => ('\\' :: '\\' :: a, b))
-  | '\\' :: '"' :: r => (litStringTail r).map (fun (a, b) => ('\\' :: '"' :: a, b))
-  | '"' :: r => some (['"'], r)
-  | '\n' :: _ => none
-  | '\r' :: '\n' :: _ => none
-  | c :: r => (litStringTail r).map (fun (a, b) => (c :: a, b))
-  | [] => none
+def litStringTail : Nat → Str → Option (Str × Str)
+  | 0, _ => none
+  | fuel + 1, cs =>
+    match strCharLen cs with
+    | 0 => match cs with
+      | '"' :: r => some (['"'], r)
+      | _ => none
+    | n + 1 => (litStringTail fuel (cs.drop (n + 1))).map (fun (a, b) => (cs.take (n + 1) ++ a, b))
 
 def litStringP : P Str := fun cs =>
   match cs with
-  | '"' :: r => (litStringTail r).map (fun (a, b) => ('"' :: a, b))
+  | '"' :: r => (litStringTail (r.length + 1) r).map (fun (a, b) => ('"' :: a, b))
   | _ => none
 
 /-- A token of a normal rule: optional whitespace first. -/
